@@ -378,6 +378,7 @@ def run(ctx):
                        simulate=200 if q else 8000)
     ctx.leg('S2C', replays=n, all_schedules_of_the_enumerated_configurations_replayed=not q,
             note='3x3 (3 threads x 3 rows x 2 pauses) is sampled by simulation in both tiers')
+    shared_text_leg(ctx, ctx.pick(90, 1500))
     ctx.exhaustive = False
     # ---- C2S
     nruns = ctx.pick(150, 2500)
@@ -415,6 +416,69 @@ def run(ctx):
     ctx.leg('C2S', runs=nruns, validated=len(meta), trace_lines=len(lines), rejected=len(rejected),
             grants=sum(1 for ln in lines if ln['k'] == 'grant'))
     classify(ctx, suspects)
+
+
+# ---- identical statement text / one parsed statement object shared by the threads (maintainer's addition) ----------------
+def register_yieldpoint():
+    """`yieldpoint()`: a pause point that does not carry the thread id in the statement text, so that several threads
+    can run the very same text (or the very same parsed statement object)."""
+    from beanquery import query_compile, query_env
+    if any(getattr(f, '_verif_yield', False) for f in query_compile.FUNCTIONS.get('yieldpoint', [])):
+        return
+
+    @query_env.function([], int, pass_row=True, name='yieldpoint')
+    def yieldpoint(row):
+        s = getattr(sched._local, 'sched', None)
+        if s is not None:
+            s.pause(getattr(sched._local, 'tid', None))
+        return 0
+    query_compile.FUNCTIONS['yieldpoint'][-1]._verif_yield = True
+
+
+SHARED_TEXTS = [
+    # the pause sits between the finalisation of a group and the reading of its aggregates
+    "SELECT k, yieldpoint() + count(*) AS n, sum(v) AS sv FROM #agg GROUP BY k",
+    "SELECT k, yieldpoint() + sum(v) AS sv, max(v) AS mx FROM #agg GROUP BY k HAVING count(*) > 0 ORDER BY k DESC",
+    "SELECT yieldpoint() + count(*) AS n, min(v) AS mn FROM #agg",
+    "SELECT k, v + yieldpoint() AS w FROM #agg WHERE v > 1 ORDER BY v",
+    "SELECT DISTINCT k, yieldpoint() AS z FROM #agg",
+    "SELECT k IN (SELECT k FROM #agg WHERE v > 25 + yieldpoint()) AS m, v FROM #agg",
+]
+
+
+def shared_text_leg(ctx, nruns):
+    import random as _random
+    import beanquery
+    from beanquery import parser
+    from harness import tables as ht
+    sched.register()
+    register_yieldpoint()
+    rows = [(1, 10), (2, 20), (1, 30), (3, 40), (2, 50), (3, 5)]
+    mk = lambda: ht.connection(ht.HarnessTable('agg', [('k', 'int'), ('v', 'int')], rows))   # noqa
+    rng = _random.Random(ctx.seed + 77)
+    bad = 0
+    for run in range(nruns):
+        text = SHARED_TEXTS[run % len(SHARED_TEXTS)]
+        serial = mk().execute(text).fetchall()
+        nthreads = rng.choice([2, 2, 3])
+        mode = ('shared-connection', 'separate-connections', 'shared-parsed-statement')[run % 3]
+        shared = mk()
+        stmt = parser.parse(text) if mode == 'shared-parsed-statement' else text
+        conns = {t: (shared if mode != 'separate-connections' else mk()) for t in range(1, nthreads + 1)}
+        s = sched.Scheduler(rng=_random.Random(rng.random()), timeout=60.0)
+        results, excs = s.run({t: (lambda c=conns[t]: c.execute(stmt).fetchall()) for t in conns})
+        ctx.case('shared-text:%d:%s:%s' % (run % len(SHARED_TEXTS), mode, s.log), True)
+        ctx.traces += 1
+        for t in conns:
+            got = results.get(t)
+            if t in excs or got != serial:
+                bad += 1
+                ctx.violation('threads:shared-text:%s' % mode,
+                              'threads running the same statement (%s) do not get the serial result' % mode,
+                              {'text': text, 'mode': mode, 'grants': s.log, 'thread': t}, 'S2C', serial,
+                              repr(excs[t]) if t in excs else got)
+                break
+    ctx.leg('S2C', shared_text_runs=nruns, shared_text_bad=bad)
 
 
 def replay(ctx, rep):
